@@ -262,6 +262,33 @@ def op_disasm(path, fmt):
     return run
 
 
+def op_decode(path):
+    """programmatic decoding of one file: labels, instruction fields and line starts of every code object,
+    through the public per-bytecode entry points (not the listing)"""
+    def run():
+        from xdis.bytecode import Bytecode, get_instructions_bytes
+        from xdis.disasm import get_opcode
+        from xdis.load import load_module
+
+        install_sinks()
+        from vlib.xcanon import walk_xcodes
+
+        try:
+            r = load_module(path)
+            opc = get_opcode(r[0], r[4])
+            out = []
+            for c in walk_xcodes(r[3]):
+                out.append([sorted(opc.findlabels(c.co_code, opc)),
+                            [[i.offset, i.opname, i.arg, bool(i.is_jump_target)] for i in get_instructions_bytes(c.co_code, opc)],
+                            [[i.offset, i.starts_line, bool(i.is_jump_target), mask(str(i.argrepr))[:30]] for i in Bytecode(c, opc)],
+                            [list(x) for x in opc.findlinestarts(c)]])
+            return digest(out)
+        except Exception as e:
+            return ["raises", type(e).__name__, mask(str(e))[:120]]
+
+    return run
+
+
 def _table_digest(opc):
     d = {}
     for k in ("opmap", "opname", "HAVE_ARGUMENT", "hasjrel", "hasjabs", "hasconst", "hasname", "haslocal", "hasfree", "hascompare",
@@ -456,6 +483,8 @@ def build_ops(plan, workdir):
     for v in sorted(plan["rich"], key=common.vt):
         for p in plan["rich"][v]:
             ops.append(("disasm-rich:%s:%s" % (v, os.path.basename(p).split("-")[0]), op_disasm(p, "classic")))
+            if p == plan["rich"][v][0] or not quick:
+                ops.append(("decode-rich:%s:%s" % (v, os.path.basename(p).split("-")[0]), op_decode(p)))
     # same version, different variant (CPython / PyPy tables share a version tuple): extended listings of both
     for fam, pat in (("2.7pypy", "bytecode_2.7pypy/*.pyc"), ("pypy37", "bytecode_pypy37/*.pyc"), ("3.7", "bytecode_3.7/*.pyc"),
                      ("pypy38", "bytecode_pypy38/*.pyc"), ("pypy36", "bytecode_pypy36/*.pyc"), ("3.6", "bytecode_3.6/*.pyc")):
@@ -608,7 +637,7 @@ def run_case(case, ctx):
             fix = True
         # stateless sweep: ordered pairs (a, b) executed regardless of state merging, so that history dependence
         # through state the hash does not cover (stdlib caches, C-level state) is still exercised at depth 2
-        suspects = [n for n in names if n.startswith(("disasm-rich:", "disasm-variant:"))] + ["load:2.5dropbox", "load:corrupt", "load:3.12", "load:2.7pypy", "disasm:3.8:extended", "disasm:2.7:xasm",
+        suspects = [n for n in names if n.startswith(("disasm-rich:", "disasm-variant:", "decode-rich:"))] + ["load:2.5dropbox", "load:corrupt", "load:3.12", "load:2.7pypy", "disasm:3.8:extended", "disasm:2.7:xasm",
                     "make_std_api:2.7", "marsh.loads:py27code", "get_opcode:2.7pypy"]
         firsts = names if tier == "thorough" else [n for n in suspects if n in names]
         done = set((tuple(e[0]), e[1]) for e in edges)
